@@ -58,7 +58,6 @@ GET_DEVIATIONS = {
     ('opus_encoder_ctl', 'OPUS_GET_PHASE_INVERSION_DISABLED_REQUEST'): 'delegated to the CELT layer through the same request',
     ('opus_decoder_ctl', 'OPUS_GET_PHASE_INVERSION_DISABLED_REQUEST'): 'delegated to the CELT layer through the same request',
     ('opus_decoder_ctl', 'OPUS_GET_BANDWIDTH_REQUEST'): 'read-only query of the last packet',
-    ('opus_multistream_encoder_ctl_va_list', 'OPUS_GET_BITRATE_REQUEST'): 'documented: sum of the per-stream resolved rates',
 }
 
 # R11.7: fields stored by a SET arm that other code may also assign, each with the reason
@@ -92,6 +91,7 @@ def setup(rep, tier):
     rep.minimum('R11.11', 2)
     rep.minimum('R11.12', 1)
     rep.minimum('R11.13', 2)
+    rep.minimum('R11.14', 10)
     rep.trusted.append('spec/ctl_ranges.json (hand transcription of include/opus_defines.h)')
 
 
@@ -348,9 +348,14 @@ def analyse_dispatcher(rep, prog, fname):
     for key, gets in sorted(get_paths.items()):
         if key not in set_paths:
             continue
+        sp = set_paths[key]
+        # a getter with several stores through its out-pointer (sentinel resolution next to the plain value) reads what SET
+        # wrote if one of them does; the others are not separate obligations
+        direct = [(g_, r_, w_) for g_, r_, w_ in gets if (sx.kind(r_) == 'field' and _fieldpath(r_) in sp) or (sx.kind(r_) == 'call' and ('forward', sx.callee_name(r_)) in sp)]
+        if direct and len(gets) > 1:
+            gets = direct[:1]
         for gname, rhs, gwhere in gets:
             inst = '%s:%s %s reads what SET wrote' % (prog.config, fname, gname)
-            sp = set_paths[key]
             if sx.kind(rhs) == 'field' and _fieldpath(rhs) in sp:
                 rep.holds('R11.4', inst, gwhere, 'path %s' % '.'.join(_fieldpath(rhs)))
             elif sx.kind(rhs) == 'call' and ('forward', sx.callee_name(rhs)) in sp:
@@ -833,6 +838,40 @@ except (OSError, ValueError, KeyError):
     _SAVE_RESTORE = []
 
 
+def r11_14(rep, prog, arms_by_disp):
+    """"applies a legal value, which the matching getter then reports" on multistream objects: for every SET request the
+    multistream dispatcher forwards to its stream objects, the GET request of the same name - when the stream object's own
+    dispatcher implements it - must be implemented by the multistream dispatcher too (it is answered `unimplemented`
+    otherwise, although the setting was applied)."""
+    n = 0
+    sub = {'opus_multistream_encoder_ctl_va_list': 'opus_encoder_ctl', 'opus_multistream_decoder_ctl_va_list': 'opus_decoder_ctl'}
+    for ms, subname in sub.items():
+        if ms not in arms_by_disp or subname not in arms_by_disp:
+            continue
+        arms = arms_by_disp[ms][0]
+        sarms = arms_by_disp[subname][0]
+        f = prog.fn(ms)
+        have = {nm for a in arms for nm in a.names}
+        subhave = {nm for a in sarms for nm in a.names}
+        for arm in arms:
+            if not any(sx.callee_name(c) == subname for b, i, c in arm.find(lambda x: x[0] == 'call')):
+                continue
+            for name in arm.names:
+                if '_SET_' not in name:
+                    continue
+                g = name.replace('_SET_', '_GET_')
+                if g not in subhave:
+                    continue              # the stream object has no such getter either (private request)
+                n += 1
+                inst = '%s:%s answers %s, the getter of a request it forwards' % (prog.config, ms, g)
+                where = '%s:%s' % (f.file, arm.line())
+                if g in have:
+                    rep.holds('R11.14', inst, where, None)
+                else:
+                    rep.violated('R11.14', inst, where, '%s is applied to every stream but %s falls into the default arm: OPUS_UNIMPLEMENTED, the applied value cannot be read back' % (name, g), key='%s:%s:nogetter' % (ms, g))
+    return n
+
+
 def r11_10(rep, prog):
     """a field saved into a local and then overwritten inside the same call (`bak = st->f; ... st->f = x; ... st->f = bak`)
     is restored on every live path from each overwrite to the function's exits.  The per-call overrides of the encoder
@@ -1013,3 +1052,4 @@ def check(rep, prog, tier):
     r11_7(rep, prog, arms_by_disp)
     r11_8(rep, prog)
     r11_9(rep, prog, arms_by_disp)
+    r11_14(rep, prog, arms_by_disp)
